@@ -13,6 +13,7 @@ import (
 // SendError sends a best effort error to a raw response writer. It assumes the client can understand the standard
 // json error response
 func SendError(w http.ResponseWriter, code int, errors ...*gqlerror.Error) {
+	w.Header().Set("Content-Type", "application/json")
 	w.WriteHeader(code)
 	b, err := json.Marshal(&graphql.Response{Errors: errors})
 	if err != nil {
